@@ -327,7 +327,9 @@ def run(chk, ctx) -> None:
                                                                  for n in ast.walk(pf.node) if isinstance(n, ast.Call)),
         }
         missing = [k for k, v in tbl.items() if not v]
-        chk.ob('C17.cumulative', 'ACPCProtocolParser._parse:replay', not missing, pf.loc,
+        from .c20 import entry_points
+    entry_points(chk, ctx, 'C17.cumulative', [prog.cls('ACPCProtocolParser')])
+    chk.ob('C17.cumulative', 'ACPCProtocolParser._parse:replay', not missing, pf.loc,
                'the protocol line is replayed token by token on a fresh state and only a finished hand is handed out', got=f'not found: {missing}' if missing else 'ok')
     # the parser replays on its own copy of the game, in cash-game mode, with everything but dealing and betting automated
     pc = prog.cls('ACPCProtocolParser')
